@@ -35,10 +35,12 @@ def main():
             sh("git -C /repo checkout -- . && git -C /repo clean -fdq")
     caught = 0
     for s, (st, fired, out) in results.items():
-        prop = json.load(open("/verif/seeded/%s/meta.json" % s))["property"]
+        meta = json.load(open("/verif/seeded/%s/meta.json" % s))
+        prop = meta["property"]
+        kind = meta.get("kind", "breaking")
         own = prop in fired
         caught += 1 if fired else 0
-        print("%-10s %-5s %-12s own=%-5s fired=%s" % (s, prop, st, own, ",".join(fired)))
+        print("%-10s %-5s %-9s %-12s own=%-5s fired=%s" % (s, prop, kind, st, own, ",".join(fired)))
         if os.environ.get("VERBOSE"):
             for l in out.splitlines():
                 if re.match(r"\s+(VIOLATED|UNDECIDED|UNRESOLVED|FLOOR|rule)", l) or "FLOOR" in l:
